@@ -1564,6 +1564,18 @@ class IH5StoreEngine:
             if s["writable"]:
                 shadows[i].apply(op)
             emit(op)
+            if op["op"] in ("set_ds", "create_group") and s["writable"] and g.random() < 0.15:
+                # relocate a group that only exists as an intermediate of the path just created
+                full = T.Shadow.join(op["base"], op["path"]).strip("/").split("/")
+                if len(full) >= 2:
+                    k = g.randrange(1, len(full))
+                    inter = "/" + "/".join(full[:k])
+                    sh = shadows[i]
+                    dst = g.choice(sh.grave) if sh.grave and g.random() < 0.6 else dgen[i].fresh_path(sh)
+                    if not (dst == inter or dst.startswith(inter + "/")):
+                        op2 = {"op": g.choice(["move", "move", "copy"]), "rec": i, "base": "/", "src": inter, "dst": dst}
+                        sh.apply(op2)
+                        emit(op2)
         cfg["recs"] = recs
         return {"engine": self.name, "prop": prop, "tag": tag, "cfg": cfg, "ops": ops}
 
